@@ -43,6 +43,7 @@ type termProfile struct {
 	minT    map[string]time.Time // node name -> earliest termination deadline read by a drain pass
 	hadT    map[string]bool      // nodeclaim name -> a termination deadline annotation has existed
 	evicted map[types.UID]bool
+	podUnk  map[types.UID]bool
 	podMinT map[types.UID]*time.Time // earliest deadline the pod has been queued under since it was (re-)enqueued
 }
 
@@ -65,6 +66,7 @@ func (p *termProfile) build() {
 	p.e.AddReapers(p.repair)
 	p.wasIn = map[types.UID]bool{}
 	p.podMinT = map[types.UID]*time.Time{}
+	p.podUnk = map[types.UID]bool{}
 	p.s.Mgr.Resync()
 }
 
@@ -337,6 +339,23 @@ func (p *termProfile) op() {
 			ctype := corev1.NodeConditionType("BadNode")
 			if bad && len(p.e.CP.Repair) > 1 {
 				ctype = p.e.CP.Repair[ch.Pick("term.badtype", len(p.e.CP.Repair))].ConditionType
+				// trouble clusters: a node that already reports one unhealthy condition often gets the other as well
+				if ch.Pick("term.badsame", 2) == 1 {
+					for _, x := range st.List(gvkNode) {
+						have := map[corev1.NodeConditionType]bool{}
+						for _, c := range x.(*corev1.Node).Status.Conditions {
+							have[c.Type] = c.Status == corev1.ConditionTrue
+						}
+						if have["BadNode"] != have["BadDevice"] {
+							o = x
+							ctype = "BadNode"
+							if have["BadNode"] {
+								ctype = "BadDevice"
+							}
+							break
+						}
+					}
+				}
 			}
 			st.Mutate(gvkNode, keyOf(o), func(o client.Object) {
 				n := o.(*corev1.Node)
@@ -512,6 +531,8 @@ func (p *termProfile) onEnqueued(pod *corev1.Pod) {
 	t := s.LastRun
 	s.Probe("evq-enqueue")
 	delete(p.podMinT, pod.UID)
+	// until the enqueue is attributed to a drain pass (and its deadline known) no later pass may stand in for it
+	p.podUnk[pod.UID] = true
 	if t == nil || t.Ctrl.Name != "node.termination" {
 		return
 	}
@@ -544,6 +565,7 @@ func (p *termProfile) onEnqueued(pod *corev1.Pod) {
 		return
 	}
 	p.podMinT[pod.UID] = T
+	delete(p.podUnk, pod.UID)
 	if pastDeadline(pod, T, now) || pastDeadline(pod, T, t.Start) {
 		s.Probe("evq-enqueue-forced")
 		return
@@ -826,27 +848,16 @@ func (p *termProfile) tightenQueued(t *Task, node string) {
 	if T == nil || pr == nil || pr.Err != nil {
 		return
 	}
-	now := p.s.Now()
-	minTier := 99
-	var waiting []*corev1.Pod
+	// Which of the enqueued pods this pass re-added (and so possibly tightened) depends on tiers and clock positions;
+	// the oracle only needs a lower bound of the stored deadline, so every enqueued pod the pass saw on the node counts
+	// as possibly re-added under this pass's deadline.
 	for _, o := range pr.Objs {
 		q := o.(*corev1.Pod)
-		if podTerminal(q) || !drainable(q, now) {
+		if !p.wasIn[q.UID] || p.podUnk[q.UID] {
 			continue
 		}
-		waiting = append(waiting, q)
-		if !pastDeadline(q, T, now) && podTier(q) < minTier {
-			minTier = podTier(q)
-		}
-	}
-	for _, q := range waiting {
-		if !p.wasIn[q.UID] {
-			continue
-		}
-		if pastDeadline(q, T, t.Start) && pastDeadline(q, T, now) || (!pastDeadline(q, T, now) && !pastDeadline(q, T, t.Start) && podTier(q) == minTier) {
-			if cur := p.podMinT[q.UID]; cur == nil || T.Before(*cur) {
-				p.podMinT[q.UID] = T
-			}
+		if cur := p.podMinT[q.UID]; cur == nil || T.Before(*cur) {
+			p.podMinT[q.UID] = T
 		}
 	}
 }
